@@ -190,6 +190,21 @@ pub fn gen(rng: &mut ChaCha20Rng, n: usize, thorough: bool) -> Vec<Case> {
             out.push(mk("txout", &b, vec![format!("src:targeted-varint-form{}", form)], true));
         }
     }
+    // targeted: a non-empty byte string that is NOT a parseable proof in each of the four proof positions of the witness (amount / inflation-keys
+    // range proof of an input, surjection / range proof of an output); another real witness item keeps the witness flag legal. Must be rejected:
+    // an accepted junk proof could only re-encode as something else.
+    for pos in 0..5 {     // pos 4: the control without junk, which must be accepted
+        for junk in [&[0xffu8][..], &[0x60], &[0x40, 0x00], &[0u8; 10], &[0x01, 0xff, 0xff], &[0xffu8; 70]] {
+            let mut b = vec![2u8, 0, 0, 0, 1, 1]; b.extend_from_slice(&[9u8; 32]); b.extend_from_slice(&[0, 0, 0, 0, 0]); b.extend_from_slice(&[0xff; 4]);
+            b.push(1); b.push(1); b.extend_from_slice(&[0x33; 32]); b.push(1); b.extend_from_slice(&5u64.to_be_bytes()); b.push(0); b.extend_from_slice(&[1, 0x51]);
+            b.extend_from_slice(&[0, 0, 0, 0]);
+            let field = |k: usize, b: &mut Vec<u8>| if k == pos { b.push(junk.len() as u8); b.extend_from_slice(junk); } else { b.push(0); };
+            field(0, &mut b); field(1, &mut b); b.extend_from_slice(&[1, 1, 0xaa]); b.push(0);     // input witness: two proofs, script witness [[aa]], empty pegin witness
+            field(2, &mut b); field(3, &mut b);                                                     // output witness: surjection proof, range proof
+            out.push(mk("tx", &b, vec![format!("src:targeted-junk-proof-pos{}", pos)], true));
+            if pos == 4 { break; }
+        }
+    }
     // targeted: every (pegin, issuance) flag combination on the coinbase index and around 0x3fffffff
     for vout in [0xffff_ffffu32, 0x3fff_ffff, 0x7fff_ffff, 0xbfff_ffff, 0x4000_0000, 0x8000_0000, 0xc000_0000, 0] {
         let mut b = vec![7u8; 32]; b.extend_from_slice(&vout.to_le_bytes()); b.push(0); b.extend_from_slice(&5u32.to_le_bytes());
